@@ -17,6 +17,12 @@ CHECKS = {
         technique="relational oracle on executions: exact thermodynamic identities between getters of one state, metamorphic (lambda V, lambda N) pairs",
         ref="DESIGN.md 2/C02",
     ),
+    "C03": dict(
+        text="Runtime monitoring of the state constructors: (a) subsets of the optional State::new inputs (all 2^8 x corruption classes at thorough) with valid / NaN / inf / negative / wrong-length values against a harness re-implementation of the documented determination rule: Ok states echo every supplied input to 1e-13, invalid / over- / under-determined sets are rejected, no panic; (b) deterministic success grid: every record of the Gross-Sadowski collections x T in [0.45,1.65] T_c x p in [1e-4,10] p_c x 3 phase hints must yield a state whose pressure matches (1e-7 rel + solver abs tol); root selection against a 400-point density scan (lowest Gibbs energy without hint, hinted branch when both exist); (c) 3e3 / 1.5e5 random (T,p,initial density) over the model zoo: pressure reproduced whenever Ok, with the hook trace marking executions whose density loop was exhausted; (d) (p,h),(p,s),(T,h),(T,s),(V,u) targets generated from reachable states with perturbed initial temperature/density: target reproduced to solver tolerance and p/T/V echoed whenever Ok.",
+        note="The re-implemented determination rule (echo_expect) is the reference for Ok/Err classification. Solver tolerances (density iteration abs 1e-12, Newton wrappers atol/rtol on the iterate) enter the oracles explicitly.",
+        technique="reference-model monitor (documented determination rule) + relational oracle on every returned state + trace specification over density-iteration exit events",
+        ref="DESIGN.md 2/C03",
+    ),
     "C04": dict(
         text="Runtime monitoring of PhaseEquilibrium::pure over a deterministic, completely enumerated grid: every pure record of the shipped PC-SAFT collections (~2150), SAFT-VR Mie (lafitte2013) and SAFT-VRQ Mie (>=0.6 T_c, helium FH2 excepted) x 28 (quick) / 217 (thorough) reduced temperatures in [0.45,0.99] of the model's vapour-liquid critical temperature must converge (success clause; the 7 records that fail today are KNOWN-FINDING F10); on every Ok: equal T (exact), equal mu (1e-7 kT), equal p relative to each phase's stiffness, rho_v<rho_l, both phases mechanically stable, hook-trace 'Ok only after a converged event'; inverse problem pure(p_sat(T)); spinodal-start fallback forced through a failpoint agrees to 1e-8; PhaseDiagram::pure with random n in [3,200] has n strictly monotone states ending in the critical point; vapor_pressure / boiling_temperature / vle_pure_comps on mixtures equal the pure-model call; random PR/PeTS/uv models with random solver options: conditions whenever Ok.",
         note="The model's own critical temperature (highest-temperature critical point found from several starts) defines the reduced grid. Failpoints only make a stage return an error it can legitimately return.",
@@ -59,6 +65,12 @@ CHECKS = {
         note="Segment tables are increments (published tables contain a negative m for >C<), positivity is therefore demanded of assembled molecules. The file-to-record-type table is part of the check; a new or missing file makes the run inconclusive.",
         technique="exhaustive enumeration of the shipped records driving the real loaders and solvers, with relational oracles per record",
         ref="DESIGN.md 2/C15",
+    ),
+    "C20": dict(
+        text="Runtime monitoring of entropy-scaling transport properties (all 146 loetgeringlin2018 records, random binaries, SAFT-VRQ Mie with synthetic coefficients): X = X_ref exp(ln X_reduced) (1e-13), correlation vs harness closed form, positive and finite, mixture with vanishing second component -> pure value, equal s_res/m -> equal reduced property; and of the estimator: every data-set type predicts what the wrapped library call returns in the documented unit, model-generated targets give zero relative difference and zero cost for every loss, NaN policy at failed points, Estimator::cost weight normalisation, each robust loss vs sqrt(f^2 rho(r^2/f^2)) over 5e6 residuals of both signs. Recorded defect F22 (negative thermal-conductivity reference for long chains) is KNOWN-FINDING.",
+        note="Harness closed forms of the correlation polynomial and the losses and harness SI constants are the reference. Loss::Linear is checked as the signed identity (documented as an assumption). PeTS transport is not compiled in feos (impl commented out) and is not covered.",
+        technique="reference-model monitor (closed forms, unit conversions) + differential oracle (predict vs wrapped library call) on seeded executions",
+        ref="DESIGN.md 2/C20",
     ),
 }
 
